@@ -1,7 +1,101 @@
 // driver: algorithm.hpp / numeric.hpp over pointer iterators (C06)
 #include <etl/algorithm.hpp>
+#include <etl/functional.hpp>
 #include <etl/numeric.hpp>
+#include <etl/utility.hpp>
 #define VF_E extern "C"
 namespace vf {
+using uint = unsigned;
+// functors (lowered to C functions taking the functor object by pointer)
+struct pred3 {
+    constexpr auto operator()(int x) const -> bool { return x % 3 == 0; }
+};
+struct op1 { // x*2+1 computed modulo 2^32 (no signed overflow)
+    constexpr auto operator()(int x) const -> int { return static_cast<int>(static_cast<uint>(x) * 2U + 1U); }
+};
+struct op2 { // x*3+y modulo 2^32
+    constexpr auto operator()(int x, int y) const -> int { return static_cast<int>(static_cast<uint>(x) * 3U + static_cast<uint>(y)); }
+};
+struct mut1 { // for_each: in-place op1
+    constexpr auto operator()(int& x) const -> void { x = static_cast<int>(static_cast<uint>(x) * 2U + 1U); }
+};
+struct gen1 { // generator: next, next+1, ...
+    uint next;
+    constexpr auto operator()() -> uint { return next++; }
+};
+struct pii { int* a; int* b; };
+
+// non-modifying
 VF_E int* find_int(int* f, int* l, int const& v) { return etl::find(f, l, v); }
-}
+VF_E int* find_if_p3(int* f, int* l) { return etl::find_if(f, l, pred3{}); }
+VF_E int* find_if_not_p3(int* f, int* l) { return etl::find_if_not(f, l, pred3{}); }
+VF_E bool all_of_p3(int* f, int* l) { return etl::all_of(f, l, pred3{}); }
+VF_E bool any_of_p3(int* f, int* l) { return etl::any_of(f, l, pred3{}); }
+VF_E bool none_of_p3(int* f, int* l) { return etl::none_of(f, l, pred3{}); }
+VF_E long count_int(int* f, int* l, int const& v) { return etl::count(f, l, v); }
+VF_E long count_if_p3(int* f, int* l) { return etl::count_if(f, l, pred3{}); }
+VF_E void for_each_mut(int* f, int* l) { (void)etl::for_each(f, l, mut1{}); }
+VF_E void mismatch3(int* f1, int* l1, int* f2, pii* out) { auto r = etl::mismatch(f1, l1, f2); out->a = r.first; out->b = r.second; }
+VF_E void mismatch4(int* f1, int* l1, int* f2, int* l2, pii* out) { auto r = etl::mismatch(f1, l1, f2, l2); out->a = r.first; out->b = r.second; }
+VF_E bool equal3(int* f1, int* l1, int* f2) { return etl::equal(f1, l1, f2); }
+VF_E bool equal4(int* f1, int* l1, int* f2, int* l2) { return etl::equal(f1, l1, f2, l2); }
+VF_E int* adjacent_find_int(int* f, int* l) { return etl::adjacent_find(f, l); }
+VF_E bool lexcmp(int* f1, int* l1, int* f2, int* l2) { return etl::lexicographical_compare(f1, l1, f2, l2); }
+
+// copying / filling
+VF_E int* copy_int(int* f, int* l, int* d) { return etl::copy(f, l, d); }
+VF_E int* copy_if_p3(int* f, int* l, int* d) { return etl::copy_if(f, l, d, pred3{}); }
+VF_E int* copy_n_int(int* f, long n, int* d) { return etl::copy_n(f, n, d); }
+VF_E int* copy_backward_int(int* f, int* l, int* d) { return etl::copy_backward(f, l, d); }
+VF_E int* move_int(int* f, int* l, int* d) { return etl::move(f, l, d); }
+VF_E int* move_backward_int(int* f, int* l, int* d) { return etl::move_backward(f, l, d); }
+VF_E void fill_int(int* f, int* l, int const& v) { etl::fill(f, l, v); }
+VF_E int* fill_n_int(int* f, long n, int const& v) { return etl::fill_n(f, n, v); }
+VF_E void generate_u(uint* f, uint* l, uint start) { etl::generate(f, l, gen1{start}); }
+VF_E uint* generate_n_u(uint* f, long n, uint start) { return etl::generate_n(f, n, gen1{start}); }
+VF_E int* transform1(int* f, int* l, int* d) { return etl::transform(f, l, d, op1{}); }
+VF_E int* transform2(int* f1, int* l1, int* f2, int* d) { return etl::transform(f1, l1, f2, d, op2{}); }
+VF_E void replace_int(int* f, int* l, int const& o, int const& n) { etl::replace(f, l, o, n); }
+VF_E void replace_if_p3(int* f, int* l, int const& n) { etl::replace_if(f, l, pred3{}, n); }
+VF_E int* swap_ranges_int(int* f1, int* l1, int* f2) { return etl::swap_ranges(f1, l1, f2); }
+VF_E void reverse_int(int* f, int* l) { etl::reverse(f, l); }
+VF_E int* reverse_copy_int(int* f, int* l, int* d) { return etl::reverse_copy(f, l, d); }
+
+// min / max / order
+VF_E int* min_element_int(int* f, int* l) { return etl::min_element(f, l); }
+VF_E int* max_element_int(int* f, int* l) { return etl::max_element(f, l); }
+VF_E int* max_element_gt(int* f, int* l) { return etl::max_element(f, l, etl::greater()); }
+VF_E void minmax_element_int(int* f, int* l, pii* out) { auto r = etl::minmax_element(f, l); out->a = r.first; out->b = r.second; }
+VF_E bool is_sorted_int(int* f, int* l) { return etl::is_sorted(f, l); }
+VF_E int* is_sorted_until_int(int* f, int* l) { return etl::is_sorted_until(f, l); }
+VF_E int* is_sorted_until_gt(int* f, int* l) { return etl::is_sorted_until(f, l, etl::greater()); }
+VF_E bool is_partitioned_p3(int* f, int* l) { return etl::is_partitioned(f, l, pred3{}); }
+VF_E int* partition_point_p3(int* f, int* l) { return etl::partition_point(f, l, pred3{}); }
+VF_E int* lower_bound_int(int* f, int* l, int const& v) { return etl::lower_bound(f, l, v); }
+VF_E int* upper_bound_int(int* f, int* l, int const& v) { return etl::upper_bound(f, l, v); }
+VF_E bool binary_search_int(int* f, int* l, int const& v) { return etl::binary_search(f, l, v); }
+VF_E void equal_range_int(int* f, int* l, int const& v, pii* out) { auto r = etl::equal_range(f, l, v); out->a = r.first; out->b = r.second; }
+VF_E int const* clamp_int(int const& v, int const& lo, int const& hi) { return &etl::clamp(v, lo, hi); }
+VF_E int const* min_int(int const& a, int const& b) { return &etl::min(a, b); }
+VF_E int const* max_int(int const& a, int const& b) { return &etl::max(a, b); }
+VF_E void minmax_int(int const& a, int const& b, int const** lo, int const** hi) { auto r = etl::minmax(a, b); *lo = &r.first; *hi = &r.second; }
+
+// removing
+VF_E int* remove_int(int* f, int* l, int const& v) { return etl::remove(f, l, v); }
+VF_E int* remove_if_p3(int* f, int* l) { return etl::remove_if(f, l, pred3{}); }
+VF_E int* remove_copy_int(int* f, int* l, int* d, int const& v) { return etl::remove_copy(f, l, d, v); }
+VF_E int* remove_copy_if_p3(int* f, int* l, int* d) { return etl::remove_copy_if(f, l, d, pred3{}); }
+VF_E int* unique_int(int* f, int* l) { return etl::unique(f, l); }
+VF_E int* unique_copy_int(int* f, int* l, int* d) { return etl::unique_copy(f, l, d); }
+
+// numeric
+VF_E uint accumulate_u(uint* f, uint* l, uint init) { return etl::accumulate(f, l, init); }
+VF_E int accumulate_i(int* f, int* l, int init) { return etl::accumulate(f, l, init); }
+VF_E int accumulate_op(int* f, int* l, int init) { return etl::accumulate(f, l, init, op2{}); }
+VF_E uint inner_product_u(uint* f1, uint* l1, uint* f2, uint init) { return etl::inner_product(f1, l1, f2, init); }
+VF_E uint* partial_sum_u(uint* f, uint* l, uint* d) { return etl::partial_sum(f, l, d); }
+VF_E uint* adjacent_difference_u(uint* f, uint* l, uint* d) { return etl::adjacent_difference(f, l, d); }
+VF_E void iota_u(uint* f, uint* l, uint v) { etl::iota(f, l, v); }
+VF_E uint reduce_u(uint* f, uint* l, uint init) { return etl::reduce(f, l, init); }
+VF_E uint reduce0_u(uint* f, uint* l) { return etl::reduce(f, l); }
+} // namespace vf
